@@ -6,14 +6,14 @@ from . import C39_corpus as K
 
 TITLE = "Behaviour is identical across build configurations"
 EXTRACTS = ["CmpFloat"]
-RULE = ("five modules compiled in every cell of a configuration matrix: {C, C++} x {-O0, -O1, -O2, -O3} x feature macros "
+RULE = ("six modules compiled in every cell of a configuration matrix: {C, C++} x {-O0, -O1, -O2, -O3} x feature macros "
         "(PYLONG/UNICODE/PYLIST internals, vectorcall/fastcall, borrowed refs, safe macros/size, type slots/specs, thread "
         "state, Limited API) x string compression x semantics-neutral directives.  c39m: one differential program (closures, "
         "generators, classes, exceptions, literals beyond the string-split limit).  c39cv, c39cmp, c39ar: the sources AND operand pools of "
         "the properties that own the macro-selected helpers - C19 PyObjectCompare (int-int by sign x digit count x differing "
         "digit position; float-int / int-float by float sign x magnitude class (below 2^30, 2^53, 2^63, beyond, inf, nan) x "
         "int sign x digit count 0,1,2,3,4+, equal and adjacent values), C02 constant binops/compares over ints of every "
-        "digit class and floats, C05 conversions to every C integer type around every type bound.  c39x: table-driven "
+        "digit class and floats, C05 conversions to every C integer type around every type bound.  c39x, c39y: table-driven "
         "functions for unicode kinds 1/2/4, bytes/bytearray, list/tuple/dict/set, calls, type slots, exceptions, generators/"
         "coroutines/async generators, pattern matching, argument binding, formatting.  Every cell runs the same tables on "
         "fresh operands; a case is one (cell, function, operand row) compared with the baseline cell; the comparison "
@@ -24,8 +24,16 @@ EXPLANATION = ("theorems (corollaries): where both variants of a helper are mode
                "with CYTHON_USE_PYLONG_INTERNALS on vs off (all operators, all doubles, all ints). partial: every other "
                "configuration difference is covered only by the matrix run (testing); the thorough tier measures with gcov which "
                "lines inside macro-guarded regions of the generated C the corpus executes.")
-TRUSTED = ["gcc/g++ 12 as conforming compilers", "CPython 3.12 Limited API headers"]
-ASSUMPTIONS = ["cells that do not compile on this platform (reported in the evidence notes) are skipped, not counted as agreement"]
+TRUSTED = ["gcc/g++ 12 as conforming compilers", "CPython 3.12 Limited API headers",
+           "the generators and operand pools of props/C02.py, C05.py, C19.py (imported, not copied)",
+           "gcov line/branch counts of the --coverage builds (thorough tier)"]
+ASSUMPTIONS = ["cells/modules that do not compile on this platform (reported in the evidence notes) are skipped, not counted as agreement",
+               "quick tier: the table modules are built at -O0 and only in the cells base / no_pylong_internals / limited_api "
+               "(+ the call module in no_vectorcall); language, optimisation level, directives and the other macros are varied "
+               "for them in the thorough tier",
+               "results are compared as type + repr (floats as hex) or exception TYPE; exception messages and object addresses are not compared",
+               "CYTHON_USE_EXC_INFO_STACK=0 is not exercised: it is not one of the property's switches, does not compile on "
+               "CPython 3.12 without CYTHON_FAST_THREAD_STATE=0 and with it closing a suspended generator segfaults"]
 
 SRC = r'''# cython: language_level=3
 import cython
@@ -184,8 +192,9 @@ def cells(quick):
         # the thorough tier)
         for c in out:
             c["table_cflags"] = ["-O0"]
-            c["tables"] = {"base": True, "no_pylong_internals": True, "limited_api": True,
-                           "no_vectorcall": ("c39x",)}.get(c["name"], False)      # (calls are made by c39x only)
+            c["tables"] = {"base": True, "limited_api": True,
+                           "no_pylong_internals": K.OPS_MODULES + ("c39x",),      # (c39y has no int fast paths)
+                           "no_vectorcall": ("c39y",)}.get(c["name"], False)      # (calls are made by c39y only)
     if not quick:
         cell("O3", cflags=["-O3"])
         cell("no_unicode_internals", macros=["CYTHON_USE_UNICODE_INTERNALS=0"])
@@ -210,7 +219,7 @@ def cells(quick):
     return out
 
 
-TABLE_MODS = K.OPS_MODULES + ("c39x",)
+TABLE_MODS = K.OPS_MODULES + ("c39x", "c39y")
 
 
 def _translate(args):
@@ -288,8 +297,8 @@ def corpus_spec(ctx, quick):
     x_tab = K.x_tables(ctx.rng, quick)
     tables = dict(ops_tab)
     tables.update(x_tab)
-    calls = [[m, f, mode, t] for m, f, mode, t in ops_calls] + [["c39x", f, mode, t] for f, mode, t in K.x_functions()]
-    return dict(ops_src, c39x=K.XSRC), ops_py, {"support": K.SUPPORT, "tables": tables, "calls": calls}
+    calls = [[m, f, mode, t] for m, f, mode, t in ops_calls] + [[m, f, mode, t] for m, f, mode, t in K.x_functions()]
+    return dict(ops_src, c39x=K.XSRC, c39y=K.YSRC), ops_py, {"support": K.SUPPORT, "tables": tables, "calls": calls}
 
 
 def run_worker(ctx, wd, spec, tag):
@@ -397,7 +406,7 @@ def classify(cell, module, func, inp, base_res, cell_res):
             and isinstance(args[0], dict) and "py" in args[0] and base_res == "!TypeError":
         # __Pyx_PyNumber_Long: tp_as_number->nb_int with type slots, PyNumber_Long() without
         return "object_without_nb_int_to_c_integer_depends_on_type_slots"
-    if cell in NO_KW_CELLS and module == "c39x" and func in ("c_call", "fa_call", "fa_call_direct"):
+    if cell in NO_KW_CELLS and module == "c39y" and func in ("c_call", "fa_call", "fa_call_direct"):
         # always_allow_keywords=False: METH_O / METH_NOARGS functions reject keyword arguments
         if func == "c_call" or (args and args[0] in ({"s": [ord(c) for c in "fa1"]}, {"s": [ord(c) for c in "m.m1"]})):
             return "always_allow_keywords_false_one_argument_function_rejects_keyword"
@@ -433,7 +442,7 @@ def run(ctx):
         res = cybuild.call_cases(wd, [["m." + f, a] for f, a in CALLS], setup="import c39m as m", alarm=30)
         return [("exc:" + r["e"]) if "e" in r else json.dumps(r.get("r"), sort_keys=True) for r in res]
 
-    # ---- c39cv, c39cmp, c39ar, c39x: table-driven
+    # ---- c39cv, c39cmp, c39ar, c39x, c39y: table-driven
     def run_t(c):
         wd = os.path.join(ctx.workdir, c["name"])
         mods = [m for m in TABLE_MODS if not status[c["name"]].get(m)]
@@ -621,7 +630,7 @@ def coverage_report(ctx, sources, spec):
                     if v[0] >= 4 and v[1] < v[0]:
                         worst.setdefault(name, []).append((v[0] - v[1], fn, m, v[0]))
                     for fam, floor in COV_FLOORS.items():
-                        if fn.startswith(fam) and v[0]:
+                        if m == "c39cmp" and fn.startswith(fam) and v[0]:        # (the module that runs the C19 pools)
                             ctx.count("guarded-coverage/%s/%s" % (name, fam), 1)
                             if v[1] < floor * v[0]:
                                 ctx.corr_break("guarded-coverage:" + fam, {"cell": name, "function": fn, "module": m},
